@@ -27,7 +27,7 @@ SLICE = {
 
 HIST_BUDGET = {
     # tier: (histories, steps)
-    "quick": (48, 30),
+    "quick": (192, 30),
     "thorough": (1600, 60),
 }
 
@@ -98,7 +98,7 @@ DISPATCH_BUDGET = {"quick": 640, "thorough": 32000}
 
 def control_check(prop: str, tier: str, seed: int, *, mon_props: Optional[List[str]] = None,
                   targets: Optional[List[str]] = None, assumptions: Optional[List[str]] = None,
-                  level: str = "proof", with_dispatcher: bool = False) -> int:
+                  level: str = "proof", with_dispatcher: bool = False, with_contention: bool = False) -> int:
     """the common shape: theorems about the control model + history correspondence + monitors"""
     v = fw.Verdict(prop, tier, seed, level)
     targets = targets or [f"Properties.{prop}"]
@@ -106,6 +106,16 @@ def control_check(prop: str, tier: str, seed: int, *, mon_props: Optional[List[s
     n_hist, steps = HIST_BUDGET[tier]
     layer = layers.hist_layer(seed, n_hist, steps)
     corr_ok = use_hist_layer(v, prop, layer, mon_props or [prop])
+    extra = []
+    if with_contention:
+        # dense queue and base-plug contention histories (the resource counters are under stress there)
+        n_q, steps_q = QUEUE_BUDGET[tier]
+        ql = layers.hist_layer(seed, n_q, steps_q, QUEUE_OPTS)
+        n_b, steps_b = BASE_BUDGET[tier]
+        bl = layers.hist_layer(seed, n_b, steps_b, BASE_OPTS)
+        extra = [ql, bl]
+        for lay in extra:
+            corr_ok = use_hist_layer(v, prop, lay, mon_props or [prop]) and corr_ok
     dl = None
     if with_dispatcher:
         # the property's clause about the built-in dispatcher: the real Dispatcher on mixed states
@@ -119,6 +129,12 @@ def control_check(prop: str, tier: str, seed: int, *, mon_props: Optional[List[s
     if not ps.ok:
         v.broken(f"proof obligation for {prop}: {ps.failing_obligation()}", {"theorem_or_build": ps.failing_obligation(), "targets": targets})
     v.coverage = {**fw.proof_coverage(ps), **hist_coverage(layer)}
+    if extra:
+        v.coverage["evaluations"] = v.coverage.get("evaluations", 0) + sum(l["records"] for l in extra)
+        v.coverage["contention_records"] = sum(l["records"] for l in extra)
+        v.coverage["rule"] = v.coverage.get("rule", "") + (
+            "; plus contention histories: (a) one public station with 1-2 plugs of one type and 4-7 vehicles (20% nearly empty) standing at it under a controller that keeps "
+            "queues alive, (b) one base with room for everybody served by a one-plug station, 3-6 vehicles standing there, ChargeBase/ReserveBase heavy, a probe in 90% of the steps")
     if dl is not None:
         v.coverage["dispatcher_runs"] = dl["cases"]
         v.coverage["assignment_problems"] = dl["steps"]
@@ -142,7 +158,7 @@ def register(prop: str):
 
 @register("C02")
 def check_C02(tier: str, seed: int) -> int:
-    return control_check("C02", tier, seed)
+    return control_check("C02", tier, seed, with_contention=True)
 
 
 @register("C07")
@@ -260,6 +276,9 @@ def check_C09(tier: str, seed: int) -> int:
     ok1 = use_hist_layer(v, "C09", hl, ["C09"])
     sl = layers.stack_layer(seed, STACK_BUDGET[tier])
     ok2 = use_simple_layer(v, "C09", sl, "stack", ["C09"])
+    n_b, steps_b = BASE_BUDGET[tier]
+    bl = layers.hist_layer(seed, n_b, steps_b, BASE_OPTS)      # probes under plug contention behind a base
+    ok2 = use_hist_layer(v, "C09", bl, ["C09"]) and ok2
     if (not ps.ok or not ok1 or not ok2) and not v.violations:
         big = layers.hist_layer(seed + 7919, n_hist * 6, steps)
         use_hist_layer(v, "C09", big, ["C09"])
@@ -267,8 +286,8 @@ def check_C09(tier: str, seed: int) -> int:
     if not ps.ok:
         v.broken(f"proof obligation for C09: {ps.failing_obligation()}", {"theorem_or_build": ps.failing_obligation()})
     cov = {**fw.proof_coverage(ps), **hist_coverage(hl)}
-    probes = [t for t in hl["triples"] if t[1].startswith("probe:")]
-    cov["evaluations"] = hl["records"] + sl["steps"]
+    probes = sorted({tuple(t) for t in hl["triples"] + bl["triples"] if t[1].startswith("probe:")})
+    cov["evaluations"] = hl["records"] + sl["steps"] + bl["records"]
     cov["distinct_nontrivial"] = len(probes) + len(sl["shapes"])
     cov["rule"] = ("(a) probes: one random instruction (any kind, any target incl. missing/remote/wrong fleet/no capacity/malformed link) applied ALONE through the real "
                    "apply_instructions to states reached in adversarial histories; Lean checks on the implementation's result that either the whole canonical state "
@@ -291,8 +310,10 @@ def check_C03(tier: str, seed: int) -> int:
         "the whole-stream conservation law is enforced by the Lean ledger automaton (Hive.Ledger) on implementation traces; the Lean theorems are the state-level lemmas listed in Properties/C03.lean (partial: no theorem over unbounded event streams yet)"])
 
 
-QUEUE_OPTS = {"world": {"queue_scenario": True, "n_veh": [4, 7]}, "hist": {"p_instr": 0.25, "p_req": 0.0, "p_probe": 0.0}}
-QUEUE_BUDGET = {"quick": (64, 40), "thorough": (5000, 60)}
+QUEUE_OPTS = {"world": {"queue_scenario": True, "n_veh": [4, 7]}, "hist": {"p_instr": 0.35, "p_req": 0.0, "p_probe": 0.0}}
+QUEUE_BUDGET = {"quick": (192, 50), "thorough": (5000, 60)}
+BASE_OPTS = {"world": {"base_scenario": True, "n_veh": [3, 6]}, "hist": {"p_instr": 0.4, "p_req": 0.0, "p_probe": 0.9}}
+BASE_BUDGET = {"quick": (96, 30), "thorough": (2000, 50)}
 
 
 @register("C18")
